@@ -1,18 +1,106 @@
 import BufrModel.Template
+import BufrProofs.Expand
 /-
   C10 — template expansion equals the regulated expansion, and always terminates.
-  (theorems are being added; see BufrProofs/Expand.lean)
+
+  Model: BufrModel/Expand.lean, BufrModel/Template.lean (tied to bufr_sequence.c /
+  bufr_template.c by the `tm.*`/`ss.*` correspondence streams).
+  Spec:  BufrSpec/Expand.lean (regulation 94.5 as inductive relations `Static`, `Full`).
 -/
 namespace Bufr.C10
-open Bufr
+open Bufr Bufr.Spec
+
+/-- **Static expansion refines regulation 94.5.**  Whenever `bufr_create_template` accepts a
+descriptor list, the expanded template it stores (`gabarit`), read without its SKIPPED
+placeholders, is *the* regulation expansion of that list: Table D sequences replaced by their
+members recursively, fixed replications unrolled, delayed replication groups kept for later.
+No bound on sizes, nesting depth or fuel. -/
+theorem C10_static_refines (T : Tables) (fuel edition : Nat) (ds : List Nat) (t : Template)
+    (h : createTemplate T fuel edition ds = .ok t) :
+    Static T ds (items t.gabarit) := by
+  unfold createTemplate at h
+  split at h
+  · simp at h
+  · split at h
+    · simp at h
+    · rename_i delayed _
+      cases he : expandSequence T fuel 0 (ds.map (mkNode T)) with
+      | error e => rw [he] at h; simp at h
+      | ok g =>
+        rw [he] at h
+        simp only [Except.ok.injEq] at h
+        subst h
+        unfold expandSequence at he
+        split at he
+        · rename_i r heq
+          simp only [Except.ok.injEq] at he
+          subst he
+          have hf : ∀ n ∈ ds.map (mkNode T), Fresh n := by
+            intro n hn
+            simp only [List.mem_map] at hn
+            obtain ⟨d, _, rfl⟩ := hn
+            exact mkNode_fresh T d
+          have := (static_ok T fuel).1 _ _ hf heq
+          simpa [List.map_map, Function.comp_def, mkNode_desc] using this
+        · simp at he
+        · simp at he
+
+/-- **Malformed templates are rejected, never expanded wrongly.**  If the regulation expansion of
+a descriptor list does not exist — an unknown Table D descriptor, a fixed replication whose X
+descriptors run past the end of the list or of the sequence they are in, spans that overlap so
+that unrolling never ends, a delayed replication not followed by a class 31 element — the
+template is refused.  (The model has no other outcome than `ok`, `null` = refused, and `fuel`;
+a crash or an abort of the C code shows up as a disagreement in the correspondence.) -/
+theorem C10_rejects (T : Tables) (fuel edition : Nat) (ds : List Nat)
+    (h : ¬ ∃ out, Static T ds out) : ∀ t, createTemplate T fuel edition ds ≠ .ok t := by
+  intro t ht
+  exact h ⟨_, C10_static_refines T fuel edition ds t ht⟩
+
+/-- templates naming an element that is in no table (and not described by 2 06 YYY), or a number
+that is not a descriptor at all, are refused before anything is expanded -/
+theorem C10_rejects_unknown (T : Tables) (fuel edition : Nat) (ds : List Nat)
+    (h : descsValid T none ds = false) : createTemplate T fuel edition ds = .error .null := by
+  unfold createTemplate; simp [h]
 
 /-- the replication count the library derives from a class 31 factor is the regulation's:
 0 31 000 is a yes/no switch, 0 31 001/002 the count itself, 0 31 011/012 a repetition
 (data present once). -/
 theorem C10_factor_count (v : Nat) :
-    solveReplication v 0 = (if v = 0 then 0 else 1) ∧ solveReplication v 1 = v ∧ solveReplication v 2 = v ∧
-    solveReplication v 11 = 1 ∧ solveReplication v 12 = 1 := by
-  unfold solveReplication
-  refine ⟨?_, ?_, ?_, ?_, ?_⟩ <;> simp <;> omega
+    solveReplication v 0 = factorCount 31000 v ∧ solveReplication v 1 = factorCount 31001 v ∧
+    solveReplication v 2 = factorCount 31002 v ∧
+    solveReplication v 11 = factorCount 31011 v ∧ solveReplication v 12 = factorCount 31012 v := by
+  unfold solveReplication factorCount
+  by_cases hv : v = 0
+  · subst hv; simp
+  · refine ⟨?_, ?_, ?_, ?_, ?_⟩ <;> simp [hv] <;> omega
+
+/-! ### Non-vacuity -/
+
+/-- a small table set: one Table D sequence containing a fixed replication -/
+def exT : Tables :=
+  { fetchB := fun d => if d = 1001 then some { desc := 1001, scale := 0, ref := 0, nbits := 7, typ := .numeric }
+                       else if d = 12101 then some { desc := 12101, scale := 2, ref := 0, nbits := 16, typ := .numeric }
+                       else if d = 31001 then some { desc := 31001, scale := 0, ref := 0, nbits := 8, typ := .numeric }
+                       else none,
+    fetchD := fun d => if d = 301001 then some { desc := 301001, members := [1001, 102002, 12101, 1001] } else none }
+
+/-- the hypothesis of `C10_static_refines` is met by a template nesting Table D, fixed and delayed
+replication, and the expansion is what the regulation says -/
+example : (createTemplate exT 100 4 [301001, 101000, 31001, 12101]).toOption.map (fun t => items t.gabarit) =
+    some [1001, 12101, 1001, 12101, 1001, 101000, 31001, 12101] := by decide +kernel
+
+/-- the hypothesis of `C10_rejects` is met by the template the original code aborted on -/
+example : ¬ ∃ out, Static exT [102003, 1001] out := by
+  rintro ⟨out, h⟩
+  cases h with
+  | elem _ _ _ h => simp [Desc.f] at h
+  | seq _ _ _ _ _ h => simp [Desc.f] at h
+  | fixed _ _ _ _ _ _ hl => simp [Desc.x] at hl
+  | delayed _ _ _ _ _ hy => simp [Desc.y] at hy
+
+def refused (r : Except XErr Template) : Bool := match r with | .error .null => true | _ => false
+example : refused (createTemplate exT 100 4 [102003, 1001]) = true := by decide +kernel
+example : refused (createTemplate exT 100 4 [101001]) = true := by decide +kernel
+example : refused (createTemplate exT 100 4 [102002, 102002, 1001, 12101]) = true := by decide +kernel
 
 end Bufr.C10
